@@ -18,3 +18,12 @@ func VerifCSSIOFault(n int) {
 		return (&Minifier{}).Minify(nil, w, r, nil)
 	})
 }
+
+var verifCSSTruncDoc = "@import \"a\";/* c */a{b:c(\"d\") url( e ) 1px!important}@media x{f{g:h}}"
+
+// VerifCSSIOFaultTruncated: C14 on every prefix of a document that uses every token kind.
+func VerifCSSIOFaultTruncated(n int) {
+	verifIOFaultTruncated([]byte(verifCSSTruncDoc), func(w io.Writer, r io.Reader) error {
+		return (&Minifier{}).Minify(nil, w, r, nil)
+	})
+}
